@@ -28,6 +28,7 @@ REPLAYS = VERIF / "replays"
 CORPUS = VERIF / "corpus"
 KNOWN = VERIF / "known_findings.json"
 LOGICAL = "PV"
+PER_FILE_TIMEOUT = int(os.environ.get("VERIF_COQC_TIMEOUT", "900"))  # seconds per .v file
 
 FORBIDDEN = re.compile(
     r"\b(Admitted|admit|Axiom|Axioms|Parameter|Parameters|Conjecture|Conjectures|"
@@ -173,7 +174,7 @@ def coq_make(targets: list[str], timeout: int = 1500, jobs: int = 16) -> BuildRe
         ensure_makefile()
         try:
             p = subprocess.run(
-                ["timeout", str(timeout), "make", f"-j{jobs}", "--no-print-directory"] + targets,
+                ["timeout", str(timeout), "make", f"-j{jobs}", "--no-print-directory", f"TIMECMD=timeout {PER_FILE_TIMEOUT}"] + targets,
                 cwd=COQ,
                 capture_output=True,
                 text=True,
@@ -300,6 +301,17 @@ def run_cases(name: str, header: str, evals: list[str], timeout: int = 600, chun
     result lines are returned un-escaped. Cases are sharded into files of
     `chunk` terms compiled in parallel. A failure to compile raises."""
     GEN.mkdir(exist_ok=True)
+    # the header's PV.* requirements must be compiled: never rely on leftovers of another build
+    deps = []
+    for m in re.finditer(r"From\s+PV\s+Require\s+(?:Import\s+|Export\s+)?([^.]+(?:\.[A-Za-z0-9_]+)*)\s*\.", strip_coq_comments(header)):
+        deps += [mod.replace(".", "/") + ".vo" for mod in m.group(1).split()]
+    for m in re.finditer(r"Require\s+(?:Import\s+|Export\s+)?((?:PV\.[\w.]+\s*)+)\.", strip_coq_comments(header)):
+        deps += [mod[3:].replace(".", "/") + ".vo" for mod in m.group(1).split()]
+    deps = [d for d in dict.fromkeys(deps) if (COQ / d[:-1]).exists()]
+    if deps and any(not (COQ / d).exists() or (COQ / d).stat().st_mtime < (COQ / d[:-1]).stat().st_mtime for d in deps):
+        r = coq_make(deps)
+        if not r.ok:
+            raise CoqEvalError(f"{name}: model files needed by the cases did not build: {r.describe()}")
     shards = [evals[i : i + chunk] for i in range(0, len(evals), chunk)] or [[]]
     files = []
     for k, sh in enumerate(shards):
@@ -620,7 +632,64 @@ def proof_stage(ctx: Ctx, prop_file: str, theorems: list[str], allowed_axioms: l
             ok = False
         elif name in theorems:
             ctx.discharged.append(name)
+    if ctx.thorough and ok and os.environ.get("VERIF_NO_COQCHK") != "1":
+        ok = coqchk_stage(ctx, prop_file, allowed_axioms) and ok
     if allowed_axioms:
         ctx.trusted.append("standard-library axioms allowed for this property: " + ", ".join(allowed_axioms))
     ctx.trusted.append(f"Coq sources audited ({len(srcs)} files): no Admitted/admit/Axiom/Parameter/Conjecture, no global Variable/Hypothesis, no disabled checks")
+    return ok
+
+
+# axioms that coqchk lists for the LOADED LIBRARIES (not necessarily used by a theorem):
+# the standard library's real-number / classical / extensionality axioms.
+LIB_AXIOM_RE = re.compile(
+    r"^(Coq\.Reals\.|Coq\.Logic\.(Classical|FunctionalExtensionality|ProofIrrelevance|Eqdep|JMeq|"
+    r"ClassicalEpsilon|ClassicalFacts|ChoiceFacts|Epsilon|IndefiniteDescription|PropExtensionality|ClassicalDescription|ClassicalChoice|ClassicalUniqueChoice|Description|Diaconescu|RelationalChoice)|"
+    r"Coq\.(Floats|Numbers\.Cyclic\.Int63|Array|Strings\.PrimString)\.)"
+)
+
+
+def coqchk_stage(ctx: Ctx, prop_file: str, allowed_axioms: list[str], timeout: int = 2400) -> bool:
+    """Independent re-check of the property's compiled file and everything it
+    depends on (thorough tier): coqchk -o, axiom summary parsed."""
+    try:
+        p = subprocess.run(
+            ["timeout", str(timeout), "coqchk", "-silent", "-o", "-Q", ".", LOGICAL, f"{LOGICAL}.Properties.{prop_file}"],
+            cwd=COQ,
+            capture_output=True,
+            text=True,
+        )
+    except Exception as e:  # pragma: no cover
+        ctx.broke("proof-broken", "coqchk could not run", str(e))
+        return False
+    out = p.stdout + p.stderr
+    if p.returncode != 0:
+        ctx.broke("proof-broken", f"coqchk rejects Properties/{prop_file}.vo (rc={p.returncode})", out[-2000:])
+        return False
+    m = re.search(r"\* Axioms:(.*?)\n\s*\n\* Constants/Inductives relying on type-in-type:(.*?)\n\s*\n\* Constants/Inductives relying on unsafe \(co\)fixpoints:(.*?)\n\s*\n\* Inductives whose positivity is assumed:(.*?)\n", out, re.S)
+    if not m:
+        ctx.broke("proof-broken", "coqchk summary not parsed", out[-1500:])
+        return False
+    axioms = [a.strip() for a in m.group(1).split("\n") if a.strip() and a.strip() != "<none>"]
+    unsafe = [x.strip() for g in (2, 3, 4) for x in m.group(g).split("\n") if x.strip() and x.strip() != "<none>"]
+    ours = [a for a in axioms if a.startswith(LOGICAL + ".")]
+    foreign = [
+        a
+        for a in axioms
+        if not a.startswith(LOGICAL + ".")
+        and not LIB_AXIOM_RE.match(a)
+        and not any(a == al or a.endswith("." + al) for al in allowed_axioms)
+    ]
+    ok = True
+    if ours or unsafe:
+        ctx.broke("proof-broken", "coqchk: axioms or unchecked definitions in the development", "\n".join(ours + unsafe))
+        ok = False
+    if foreign:
+        ctx.broke("proof-broken", "coqchk: unexpected library axioms in the loaded context", "\n".join(foreign))
+        ok = False
+    ctx.cov["coqchk"] = {"axioms_in_loaded_context": axioms, "unsafe": unsafe, "ok": ok}
+    ctx.trusted.append(
+        "coqchk -o re-checked the property's .vo and its dependencies; axioms of the loaded libraries: "
+        + (", ".join(axioms) if axioms else "none")
+    )
     return ok
